@@ -51,6 +51,8 @@ def case_job(arg):
         if populated:
             steps.append({"write": gen.render(p0), "how": "import", "modules": gen.import_order(p0), "entry": _entry(p0), "post_loads": loads})
             steps.append({"write": gen.render(p1), "how": "reload", "modules": gen.import_order(p1), "entry": _entry(p1, {"dds_stages": stages}), "post_loads": loads})
+            # ... and once more: the second restricted run finds the blobs that the first one may have stored
+            steps.append({"how": "none", "entry": _entry(p1, {"dds_stages": stages}), "post_loads": loads})
         else:
             steps.append({"write": gen.render(p0), "how": "import", "modules": gen.import_order(p0), "entry": _entry(p0, {"dds_stages": stages}), "post_loads": []})
         steps.append({"how": "none", "entry": _entry(target), "post_loads": sorted(nodes)})
@@ -72,6 +74,7 @@ def case_job(arg):
             return rep
     ri = 1 if populated else 0
     restricted, full = outs[ri], outs[-1]
+    repeated = outs[2] if populated else None
     before = outs[0] if populated else None
     for o in outs + twin["steps"] + ref["steps"]:
         if "setup_error" in o:
@@ -108,11 +111,17 @@ def case_job(arg):
         if restricted["sync_begun"]:
             bad("evaluation restricted to %r committed paths" % (stages,), "restricted-run-committed-paths")
         if populated:
-            # every path still serves what it served before
-            for path, lv in (before.get("loads") or {}).items():
-                rep.count("path_state_checks")
-                if restricted["loads"].get(path, ("?",))[:2] != lv[:2]:
-                    bad("path %s serves something else after the restricted run" % path, "restricted-run-changed-path")
+            # every path still serves what it served before - also after the restricted run is repeated
+            for label, rr_ in (("the restricted run", restricted), ("the repeated restricted run", repeated)):
+                if rr_.get("result", ("exc",))[0] != "ok":
+                    bad("%s raised %r" % (label, rr_.get("result", ["?"])[1:3]), "restricted-run-raised")
+                    continue
+                if rr_["sync_begun"]:
+                    bad("%s (stages %r) committed paths" % (label, stages), "restricted-run-committed-paths")
+                for path, lv in (before.get("loads") or {}).items():
+                    rep.count("path_state_checks")
+                    if rr_["loads"].get(path, ("?",))[:2] != lv[:2]:
+                        bad("path %s serves something else after %s" % (path, label), "restricted-run-changed-path")
         else:
             pass
         if not runs_user_code and restricted.get("tree") is not None:
